@@ -313,6 +313,19 @@ def run(ctx):
         it3 = fde.Interp(prog, stubs={"is_paused_flag": lambda i, a: fde.Int(0)})
         outs = it3.run(f, [fde.Ref(fde.Cell(fde.Adt(None, None, {}))), fde.TOP])
         ks = sorted({fde.result_kind(it3, o) for o in outs})
+        if ks != [("val", 1)]:
+            # the flag test may be written in place (or through a new helper) instead of through is_paused_flag(): evaluate it on a
+            # state whose pause_flags word is 0
+            try:
+                sa = f.info.get("self_adt")
+                fi = field_idx(prog, adt_key(prog, sa.split("::")[-1]) if sa not in prog.adts else sa, "pause_flags")
+                it4 = fde.Interp(prog)
+                outs4 = it4.run(f, [fde.Ref(fde.Cell(fde.Adt(sa, 0, {fi: fde.Cell(fde.Int(0))}))), fde.TOP])
+                ks4 = sorted({fde.result_kind(it4, o) for o in outs4})
+                if ks4 == [("val", 1)]:
+                    ks = ks4
+            except Exception:
+                pass
         ctx.inst("C14.R4", construct + "/flag-clear", ks == [("val", 1)], "is_expired() is true whenever the pause flag is clear", "outcomes %s" % ks, f.loc(f.raw["span"]))
         it4 = fde.Interp(prog, stubs={"is_paused_flag": lambda i, a: fde.Int(1)})
         outs = it4.run(f, [fde.Ref(fde.Cell(fde.Adt(None, None, {}))), fde.TOP])
